@@ -73,7 +73,10 @@ def run_cases(cases, flavour='c', timeout=20, judge_args=None, keep_obs=True, ha
         exe = harness_exe or build.build_containers(flavour)
         judge = os.path.join(os.path.dirname(judge), 'containers_model')
     else:
-        exe = harness_exe or build.build_harness(flavour)
+        # `<flavour>-plain`: the same harness without sanitizers (gcc -O1): a read of uninitialised
+        # stack memory keeps the pattern the harness fills the stack with (the frame layout of an
+        # ASan build hides it)
+        exe = harness_exe or (build.build_harness(flavour[:-6], sanitize=False) if flavour.endswith('-plain') else build.build_harness(flavour))
     res = Result()
     workdir = tempfile.mkdtemp(prefix='run-', dir=build.WORK)
     try:
